@@ -1598,6 +1598,12 @@ impl Tree {
 		let checkpoint = DatabaseCheckpoint::new(Arc::clone(&self.core.inner));
 		let metadata = checkpoint.restore_from_checkpoint(checkpoint_dir)?;
 
+		// The value log's files were replaced too: drop its writer and read handles and
+		// pick up the restored files.
+		if let Some(ref vlog) = self.core.inner.vlog {
+			vlog.reload_after_restore()?;
+		}
+
 		// The restored files reuse table ids (and value-log file ids) of the discarded
 		// timeline: blocks and values cached under those ids belong to files that no
 		// longer exist.
